@@ -90,9 +90,6 @@ func (s *sys) Apply(op string) string {
 		// The command may legitimately block (grace period): run it on its own goroutine.
 		var err error
 		done := false
-		if op == "ForceFailover" {
-			o.force++
-		}
 		go func() {
 			if op == "ForceFailover" {
 				err = o.ctl.ForceFailover("operator")
@@ -107,9 +104,6 @@ func (s *sys) Apply(op string) string {
 			obs = "blocked "
 		case err != nil:
 			obs = "refused "
-			if op == "ForceFailover" {
-				o.force--
-			}
 		default:
 			obs = "accepted "
 		}
@@ -266,4 +260,13 @@ func replay(run *report.Run, ms []*explore.Model) int {
 	return 2
 }
 
-func classify(v *report.Violation) {}
+// classify assigns root-cause classes. Each predicate is computed by the oracle
+// from the witness itself (see classifyUnsustained), not from the trace text.
+func classify(v *report.Violation) {
+	// The partner had been down for a full failover delay, the failover timer
+	// had fired and executeFailover was sleeping in its grace period when the
+	// partner recovered; the promotion completed at most GracePeriod later.
+	if v.Kind == "F2-recovery-not-cancelling" && v.Site == "recovery-during-grace" {
+		v.Class = "C14-recovery-during-grace"
+	}
+}
